@@ -557,6 +557,26 @@ def run(ch, idx, tier):
                     a, b = getattr(fw, attr), getattr(fw1, attr)
                     if list(a.index) != list(b.index):
                         violate("content_changed_by_round_trip", f"framework.{attr}", {"diff": f"index {list(a.index)[:5]} vs {list(b.index)[:5]}"})
+                    else:
+                        # cell by cell, irrespective of column order (NaN == NaN, numbers to 16 digits, strings stripped)
+                        for col in a.columns:
+                            if col not in b.columns:
+                                violate("content_changed_by_round_trip", f"framework.{attr}", {"diff": f"column {col!r} missing after round trip"})
+                                break
+                            for key_, va, vb in zip(a.index, a[col].tolist(), b[col].tolist()):
+                                na = va is None or (isinstance(va, float) and math.isnan(va))
+                                nb = vb is None or (isinstance(vb, float) and math.isnan(vb))
+                                if na or nb:
+                                    same = na and nb
+                                elif isinstance(va, (int, float)) and isinstance(vb, (int, float)):
+                                    same = _num_eq(float(va), float(vb), 1e-15)
+                                else:
+                                    same = str(va).strip() == str(vb).strip()
+                                if not same:
+                                    violate("content_changed_by_round_trip", f"framework.{attr}", {"diff": f"{key_}.{col}: {va!r} vs {vb!r}"})
+                                    break
+                if list(fw.cascades.keys()) != list(fw1.cascades.keys()):
+                    violate("content_changed_by_round_trip", "framework.cascades", {"diff": f"{list(fw.cascades.keys())} vs {list(fw1.cascades.keys())}"})
                 if {k: sorted(v) for k, v in fw.transitions.items()} != {k: sorted(v) for k, v in fw1.transitions.items()}:
                     violate("content_changed_by_round_trip", "framework.transitions", {})
                 Pf = at.Project(framework=fw1, databook=data.to_spreadsheet(), do_run=False)
